@@ -1,4 +1,5 @@
 import ClaripyProofs.Lemmas.Solver.CachelessHistory
+import ClaripyProofs.Lemmas.Solver.SolverConsistent
 /-!
 # C11 — solver answers after any history (Solver, SolverCacheless, SolverStrings)
 
@@ -15,6 +16,11 @@ model callback that only touches the frontend record (`HookOk`):
   * every model handed to the callback is a partial model of the assertions (what `ModelsValid` needs).
 The full refinement statement is `C11_full`; see design_notes/C11.md for what is covered by proof and what by the
 trace correspondence only.
+
+Whole histories over trees of branched solvers: `C11_cacheless_refines` (class SolverCacheless) and `C11_solver_refines`
+(the caching class `Solver`: ModelCacheMixin, SatCacheMixin, ConstraintExpansionMixin, SimplifyHelperMixin on top).  The
+invariant of ModelCacheMixin's state is `MCInv`; `C11_modelcache_*` say that every operation of the mixin keeps it given
+that the rest of the MRO answers as specified, `C11_cache_*_fast` that answers served from the cache are allowed answers.
 -/
 namespace Claripy.Props.C11
 open Claripy.Solver Claripy.Gen.SolverMro LayerName
@@ -40,9 +46,13 @@ def C11_full (cls : SolverClass) : Prop :=
   ∀ (E : Env), OracleExact E → BuildExact E → SimplifyEquiv E → CheapSound E → PickValid E →
   ∀ (track reuse : Bool) (hist : List (Nat × Op)), (∀ io ∈ hist, io.2.Wf) →
     ∀ x ∈ runHist E cls (World.init track reuse) [[]] hist, x.2.2 ≠ .err .giveUp → Judge x.1 x.2.1 x.2.2
--- `BuildExact` / `SimplifyEquiv` are meant over the constraints and expressions of the run; the instance proved
--- below (`C11_cacheless_refines`) uses the relativised forms `Reg` and `SimpOn`, and `C11_hypotheses_consistent`
--- shows those are jointly satisfiable with an oracle that decides every query having a finitely described model.
+-- `BuildExact` / `SimplifyEquiv` are meant over the constraints and expressions of the run; the instances proved
+-- below (`C11_cacheless_refines`, `C11_solver_refines`) use the relativised forms (`Reg`, `SimpOn`, `BuildOn`, `PickOk` —
+-- `PickValid` as stated asks a duplicate-free choice from lists WITH duplicates and is unsatisfiable), and
+-- `C11_hypotheses_consistent` / `C11_solver_hypotheses_consistent` show those are jointly satisfiable.
+-- NOT proved of `C11_full`: the classes other than SolverCacheless and Solver; `track=True`; `reuse_z3_solver`; the calls
+-- `batch_eval` (proved through ModelCacheMixin down to Z3, `C11_modelcache_batch_eval` + `full_batchEval_spec`; the
+-- reassembly of concrete components in ConcreteHandlerMixin.batch_eval is not), `unsat_core` and pickling in a history.
 
 /-- `_satisfiable` over an exact oracle is exact and leaves the solver object's frames alone -/
 theorem C11_satisfiable_exact {E : Env} (hE : OracleExact E) {hook : PModel → M Unit} {A : List ZCon}
@@ -120,6 +130,143 @@ theorem C11_is_true_false_sound {G : St → Prop} {E : Env} (hT : CheapSound E) 
     | (.ok b, s') => (b = true → ∀ a, Models (U ++ extra) a → c.sem a = isTrue) ∧ CLInv G U s'
     | (.error err, s') => ErrOk E (U ++ extra) err ∧ CLInv G U s' :=
   clTruth_spec hT hs U s h isTrue c hc extra wf
+
+/-! ### ModelCacheMixin: the invariant of the cache, every operation of the mixin, the fast paths -/
+
+/-- **the invariant is established by `__init__`** (and by `_blank_copy`, `__setstate__`: an empty cache) -/
+theorem C11_modelcache_init (RE : Exp → Prop) (E : Env) (U : List Con) : MCInv RE E U ({} : Frontend) :=
+  mcInv_init RE E U _ rfl rfl rfl rfl rfl rfl
+
+/-- **`_model_hook`** keeps it: a model Z3 hands out for assertions that mean the user's constraints, restricted to the
+variables the frontend knows and completed with claripy's defaults, still satisfies the constraints; the flags stay right
+because the cache only grows -/
+theorem C11_modelcache_hook {RE : Exp → Prop} {E : Env} {U : List Con} {fe : Frontend} (h : MCInv RE E U fe) (m : PModel)
+    (cs : List Con) (wf : ∀ c ∈ cs, ConWf c) (hv : ∀ c ∈ cs, ∀ v ∈ c.vars, v ∈ fe.variables)
+    (heq : ∀ a, Models cs a ↔ Models U a) (hm : ∀ a, Agrees a m → Models cs a) : MCInv RE E U (mcHookFe m fe) :=
+  mcHookFe_inv h m cs wf hv heq hm
+
+/-- **`_add`** (trivial-model optimisation, re-validation of the cached models, clearing of the flags) keeps it for the
+constraints the user then has — provided `super()._add` reports what it added (`LowAdd0`, proved of FullFrontend over
+ConstrainedFrontend: `fc_add_low`) and, for `invalidate_cache=False`, the added constraints are implied by the old ones -/
+theorem C11_modelcache_add {R : Con → Prop} {RE : Exp → Prop} {E : Env} {G : St → Prop} {U : List Con} (hR : Reg R E)
+    (hT : TrivOk R RE) {self sup : Ops} (hsup : LowAdd0 sup.add) (s : St) (hb : BInv R G U s) (hmc : MCInv RE E U s.fe)
+    (cs : List Con) (inv : Bool) (hcs : ∀ c ∈ cs, R c) (himp : inv = false → ∀ a, Models U a → Models cs a) :
+    ∃ new s', (modelCacheLayer E self sup).add cs inv s = (.ok new, s') ∧ AddRel s s' cs new ∧
+      MCInv RE E (U ++ new) s'.fe ∧ KeepAdd E s s' cs ∧ s'.fe.cachedSat = s.fe.cachedSat ∧ s'.fe.hashes = s.fe.hashes :=
+  mc_add_spec hR hT hsup s hb hmc cs inv hcs himp
+
+/-- **`satisfiable`** through the mixin: right answer, invariant kept, if the layers below do the same -/
+theorem C11_modelcache_satisfiable {R : Con → Prop} {RE : Exp → Prop} {E : Env} {G : St → Prop} {U : List Con}
+    {self sup : Ops} (extra : List Con) (hsup : SatSpec R RE E G U extra (sup.satisfiable extra)) :
+    SatSpec R RE E G U extra ((modelCacheLayer E self sup).satisfiable extra) := mc_satisfiable_spec extra hsup
+
+/-- **`batch_eval`** (cached tuples, blocking constraint, flagging as eval-exhausted) -/
+theorem C11_modelcache_batch_eval {R : Con → Prop} {RE : Exp → Prop} {E : Env} {G : St → Prop} {U : List Con}
+    (hP : PickOk E) (hRE : ExpReg RE) {sup : Ops} (asts : List Exp) (hre : ∀ e ∈ asts, RE e) (n : Nat) (hn : 1 ≤ n)
+    (extra : List Con)
+    (hsup : ∀ n' extra', 1 ≤ n' → BatchSpec R RE E G U asts n' extra' (sup.batchEval asts n' extra')) :
+    BatchSpec R RE E G U asts n extra (modelCacheBatchEval E sup asts n extra) :=
+  mc_batchEval_spec hP hRE asts hre n hn extra hsup
+
+/-- **`eval`** -/
+theorem C11_modelcache_eval {R : Con → Prop} {RE : Exp → Prop} {E : Env} {G : St → Prop} {U : List Con}
+    (hP : PickOk E) (hRE : ExpReg RE) {self sup : Ops} (e : Exp) (he : RE e) (hc : e.conc = none) (n : Nat) (hn : 1 ≤ n)
+    (extra : List Con)
+    (hsup : ∀ n' extra', 1 ≤ n' → BatchSpec R RE E G U [e] n' extra' (sup.batchEval [e] n' extra')) :
+    EvalSpec R RE E G U e n extra ((modelCacheLayer E self sup).eval e n extra) :=
+  mc_eval_spec hP hRE e he hc n hn extra hsup
+
+/-- **`min` / `max`** (cached optimum, flagging as max/min-exhausted per signedness) -/
+theorem C11_modelcache_extremum {R : Con → Prop} {RE : Exp → Prop} {E : Env} {G : St → Prop} {U : List Con}
+    (hRE : ExpReg RE) {sup : Ops} (isMax : Bool) (e : Exp) (he : RE e) (extra : List Con) (signed : Bool)
+    (hsup : OptSpec R RE E G U isMax e extra signed (if isMax then sup.max e extra signed else sup.min e extra signed)) :
+    OptSpec R RE E G U isMax e extra signed (modelCacheExtremum E sup isMax e extra signed) :=
+  mc_extremum_spec hRE isMax e he extra signed hsup
+
+/-- **`solution`** -/
+theorem C11_modelcache_solution {R : Con → Prop} {RE : Exp → Prop} {E : Env} {G : St → Prop} {U : List Con}
+    {self sup : Ops} (e : Exp) (hc : e.conc = none) (v : Nat) (extra : List Con)
+    (hsup : SolSpec R RE E G U e v extra (sup.solution e v extra)) :
+    SolSpec R RE E G U e v extra ((modelCacheLayer E self sup).solution e v extra) := mc_solution_spec e hc v extra hsup
+
+/-- **`branch`** (`_copy`) hands the cache to the copy, **pickling** empties it, **`simplify`** empties it only when the
+constraints contain a literal `false` -/
+theorem C11_modelcache_copy_pickle_simplify {RE : Exp → Prop} {E : Env} {U : List Con} {fe : Frontend} (h : MCInv RE E U fe) :
+    (∀ c : Frontend, MCInv RE E U { c with models := fe.models, evalExh := fe.evalExh, maxExh := fe.maxExh,
+                                           minExh := fe.minExh, maxSExh := fe.maxSExh, minSExh := fe.minSExh }) ∧
+    (∀ new : Frontend, MCInv RE E U (pickleLayer .ModelCacheMixin fe new)) ∧
+    (¬ Satisfiable U → MCInv RE E U { fe with models := [] }) :=
+  ⟨fun _ => mcInv_copy h, fun new => mcInv_pickle fe new, fun hun => mcInv_clear_models hun⟩
+
+/-- **fast path, `satisfiable`**: some cached model satisfies the extra constraints — `True`, without asking anybody -/
+theorem C11_cache_satisfiable_fast {RE : Exp → Prop} {E : Env} {U : List Con} {self sup : Ops} {s : St}
+    (h : MCInv RE E U s.fe) (extra : List Con) (hne : (getModels E s.fe extra).isEmpty = false) :
+    (modelCacheLayer E self sup).satisfiable extra s = (.ok true, s) ∧ Judge U (.satisfiable extra) (.bool true) :=
+  mc_satisfiable_fast h extra hne
+
+/-- **fast path, `eval`**: enough cached values, or the expression is flagged eval-exhausted -/
+theorem C11_cache_eval_fast {RE : Exp → Prop} {E : Env} {U : List Con} {self sup : Ops} {s : St} (hP : PickOk E)
+    (h : MCInv RE E U s.fe) (e : Exp) (he : RE e) (hc : e.conc = none) (n : Nat) (extra : List Con)
+    (hfast : BatchFast E s.fe [e] n extra) :
+    ∃ vs, (modelCacheLayer E self sup).eval e n extra s = (.ok vs, { s with tick := s.tick + 1 }) ∧
+      Judge U (.eval e n extra) (.vals vs) :=
+  mc_eval_fast hP h e he hc n extra hfast
+
+/-- **fast path, `min` / `max`**: the expression is flagged (eval- or optimum-exhausted in the signedness asked for), no
+extra constraints, a model is cached -/
+theorem C11_cache_extremum_fast {RE : Exp → Prop} {E : Env} {U : List Con} {sup : Ops} {s : St} (hR : ExpReg RE)
+    (h : MCInv RE E U s.fe) (isMax signed : Bool) (e : Exp) (he : RE e) (hc : e.conc = none)
+    (hfl : e.id ∈ s.fe.evalExh ∨ e.id ∈ optFlags isMax signed s.fe) (hne : s.fe.models ≠ []) :
+    ∃ i, modelCacheExtremum E sup isMax e [] signed s = (.ok i, s) ∧
+      Judge U (if isMax then .max e [] signed else .min e [] signed) (.int i) :=
+  mc_extremum_fast hR h isMax signed e he hc hfl hne
+
+/-- **fast path, `solution`**: some cached model that satisfies the extra constraints gives the value -/
+theorem C11_cache_solution_fast {RE : Exp → Prop} {E : Env} {U : List Con} {self sup : Ops} {s : St}
+    (h : MCInv RE E U s.fe) (e : Exp) (hc : e.conc = none) (v : Nat) (extra : List Con)
+    (hin : ((allBatchSolutions E s.fe [e] extra true).map fun t => t.headD 0).contains v = true) :
+    (modelCacheLayer E self sup).solution e v extra s = (.ok true, s) ∧ Judge U (.solution e v extra) (.bool true) :=
+  mc_solution_fast h e hc v extra hin
+
+/-! ### the caching class `Solver`, whole histories over trees of branched solvers -/
+
+/-- **Solver refines the specification.** Start from a fresh `Solver()` (no tracking, Z3 solver not reused) and make ANY
+sequence of add / satisfiable / eval / min / max / solution / is_true / is_false / simplify / downsize / branch calls on any of
+the solvers alive (`HistOkS`: the solver called exists; added constraints from the registry `R`, queried expressions from
+the registry `RE`).  Under the hypotheses `SolverHyps` (those of the cacheless theorem, plus: `EvalComplete` — the models of
+`sat` answers determine the registered expressions —, `PickOk`, `TrivOk`, `BuildOn`, `SimpVars`), every answer of the model —
+the complete mixin stack composed from the generated MRO, model cache, satisfiability cache and constraint expansion
+included, the solvers of the tree sharing Z3 objects as `_copy` makes them and inheriting each other's caches — other than the
+give-up error is one the property statement allows for the constraints added so far to the solver that was asked. -/
+theorem C11_solver_refines {E : Env} {R : Con → Prop} {RE : Exp → Prop} (H : SolverHyps R RE E) (hist : List (Nat × Op))
+    (hok : HistOkS R RE 1 hist) :
+    ∀ x ∈ runHist E .Solver (World.init false false) [[]] hist, x.2.2 ≠ .err .giveUp → Judge x.1 x.2.1 x.2.2 :=
+  sol_hist H hist _ _ (tinvS_init R RE E) hok
+
+/-- the same with the give-up case spelled out -/
+theorem C11_solver_refines_or_gives_up {E : Env} {R : Con → Prop} {RE : Exp → Prop} (H : SolverHyps R RE E)
+    (hist : List (Nat × Op)) (hok : HistOkS R RE 1 hist) :
+    ∀ x ∈ runHist E .Solver (World.init false false) [[]] hist, JudgeOrGiveUp E x.1 x.2.1 x.2.2 :=
+  sol_hist_giveup H hist _ _ (tinvS_init R RE E) hok
+
+/-- one call on solver `i` of a tree of caching solvers: answers as allowed for that solver's constraints (or gives up
+honestly) and keeps the invariant of the whole world (`TInvS`: every frontend satisfies `SI = BInv ∧ MCInv ∧ SCInv` for its
+own user's constraints; shared Z3 objects are referred to by finalized frontends only) -/
+theorem C11_solver_step {E : Env} {R : Con → Prop} {RE : Exp → Prop} (H : SolverHyps R RE E) (w : World)
+    (Us : List (List Con)) (hw : TInvS R RE E Us w) (i : Nat) (hi : i < w.fes.length) (op : Op) (hop : InScopeS R RE op) :
+    JudgeOrGiveUp E (usersAfter (Us.getD i []) op) op (step E .Solver w i op).1 ∧
+    TInvS R RE E (usersAll Us i op) (step E .Solver w i op).2 :=
+  sol_step H w Us hw i hi op hop
+
+/-- the hypotheses of `C11_solver_refines` are jointly satisfiable, with a registry holding a real constraint (`x <= 5`) and
+a queried expression (`x`), and a history in scope that adds, optimises, branches, enumerates, … -/
+theorem C11_solver_hypotheses_consistent :
+    ∃ (E : Env) (R : Con → Prop) (RE : Exp → Prop), SolverHyps R RE E ∧ R cCon ∧ RE cExp ∧ HistOkS R RE 1 cHist :=
+  ⟨cEnv, cR, cRE, cHyps, Or.inr (Or.inl rfl), rfl, cHist_ok⟩
+
+/-- non-vacuity: the theorem applies to that environment and history -/
+example : ∀ x ∈ runHist cEnv .Solver (World.init false false) [[]] cHist, JudgeOrGiveUp cEnv x.1 x.2.1 x.2.2 :=
+  C11_solver_refines_or_gives_up cHyps cHist cHist_ok
 
 /-! ### the hypotheses are jointly satisfiable -/
 
